@@ -221,12 +221,12 @@ def evalE (O : Oracle) : Expr → St → ER Val
       match evalE O v σ with
       | (.ok x, σ1) =>
         match t with
-        | .name _ s _ => (.ok x, σ1.set s x)
-        | _ => (.error unsupported, σ1)
+        | .name _ s .store => (.ok x, σ1.set s x)
+        | _ => (.error unsupported, σ1)    -- in particular a target whose context is not Store
       | (.error e, σ1) => (.error e, σ1)
   | .other _ k ats ks, σ =>
       if k == "Dict" then
-        let nk := (ats.headD "0").toNat?.getD 0
+        let nk := natOfDigits (ats.headD "0").toList
         dictLoop (fun j s => evalNth O ks j s) (fun j => isNoneMarker (ks.getD j .noneMarker)) nk nk σ
       else if k == "Slice" then
         match evalOpts O ks σ with
